@@ -222,6 +222,26 @@ ModelInstallItems(p) ==
            IN IF it.kind \notin {"data", "headers", "man"} \/ it.rename # <<>> THEN {}
               ELSE {<<Join(srcdir, it.files[f]), Join(base, it.files[f]), tag, it.sp>> : f \in DOMAIN it.files}
              : k \in DOMAIN p.installs}
+\* install_subdir(dir, install_dir: D [, strip_directory: true]): the directory lands in D/<dir> (in D itself when
+\* stripped); a plain relative D is shown below {prefix}, an option-derived D keeps its placeholder
+ModelSubdirItems(p) ==
+    UNION {LET it == p.installs[k]
+               srcdir == Join("../src", Join(SpDir(it.sp), it.subdir))
+               d == IF it.install_dir = "" THEN "share/sd" ELSE it.install_dir
+               base == IF IsAbs(d) \/ (Len(d) >= 1 /\ SubSeq(d, 1, 1) = "{") THEN d ELSE "{prefix}/" \o d
+           IN IF it.kind # "subdir" THEN {}
+              ELSE {<<Join(srcdir, it.files[1]), IF it.strip THEN base ELSE Join(base, it.files[1])>>}
+             : k \in DOMAIN p.installs}
+ModelSubdirMissing(c) ==
+    {x[1] \o " -> " \o x[2] : x \in ModelSubdirItems(c.p) \ {<<c.plan[k].src, c.plan[k].dest>> : k \in DOMAIN c.plan}}
+\* where the plan says an item goes (placeholders resolved) is where the files really landed
+PlanVsTree(c) ==
+    IF ~c.did_install THEN {}
+    ELSE UNION {LET e == c.plan[k]
+                    want == IF IsDirEntry(c, e.src) THEN {PJoin(Resolved(c, e), f) : f \in DirFiles(c, e.src)}
+                            ELSE {Resolved(c, e)}
+                IN want \ SeqToSet(c.tree)
+                  : k \in {j \in DOMAIN c.plan : c.plan[j].ph \in KnownPlaceholders \cup {""}}}
 ModelInstallMissing(c) == {x[1] \o " -> " \o x[2] \o " [" \o x[3] \o "]" : x \in ModelInstallItems(c.p) \ PlanSet(c)}
 
 (* ---- build system files -------------------------------------------------- *)
